@@ -22,7 +22,7 @@ def scale(tier, q, t):
 
 def c01(c):
     build_both()
-    c.mc(toy_cfgs(["point", "field", "bytes"], c.tier))
+    c.mc(toy_cfgs(["point", "field", "bytes"], c.tier) + session_cfgs(c.tier))
     for b in ("ark", "min"):
         c.trace(b, "prog", scale(c.tier, 60, 1200), 40)
         c.trace(b, "rt2rand", scale(c.tier, 1500, 30000))
@@ -32,9 +32,51 @@ def c01(c):
                          "point of 2E in every rescaling, every field element, every byte string of the encoding length")
 
 
+def session_cfgs(tier):
+    ps = [13, 17, 29, 41] if tier != "thorough" else [13, 17, 29, 41, 73]
+    return [("MC_Session.tla", "cfg/MC_Session_p%d.cfg" % p) for p in ps]
+
+
+def replay_decode_plan(c, which, plan):
+    """spec -> implementation: run the real decoders on the strings TLC enumerated and compare every
+    verdict / error class with what TLC computed beforehand (DecodeBytes); then also validate the events"""
+    exp = {}
+    classes = {}
+    for l in open(plan):
+        e = json.loads(l)
+        exp[tuple(e["b"])] = (e["ok"], e["err"])
+        classes[e["cls"]] = classes.get(e["cls"], 0) + 1
+    lines = record(which, "decfile", 0, plan)
+    bad = 0
+    for l in lines:
+        e = json.loads(l)
+        if e.get("k") != "dec":
+            continue
+        want = exp.get(tuple(e["b"]))
+        if want is None:
+            raise ToolError("decode plan replay: event for a string that is not in the plan")
+        if "panic" in e or (e.get("ok"), e.get("err")) != want:
+            bad += 1
+            sg = (which, "plan-dec", e.get("entry"))
+            if sg not in c.viol_sigs:
+                c.viol_sigs[sg] = 0
+                p = os.path.join(OUT, c.prop, "plan_%s_%d.json" % (which, len(c.violations)))
+                json.dump({"event": e, "expected_ok": want[0], "expected_err": want[1]}, open(p, "w"))
+                c.violations.append(("[%s build] decode plan: entry %s returned ok=%s err=%s on %s, the specification says ok=%s err=%s"
+                                     % (which, e.get("entry"), e.get("ok"), e.get("err"), e["b"], want[0], want[1]), p, sg))
+            c.viol_sigs[sg] += 1
+    c.notes.append("DecodePlan (%s): %d strings enumerated by TLC, classes %s; %d decoder calls replayed, %d disagreements"
+                   % (which, len(exp), classes, sum(1 for l in lines if '"k":"dec"' in l), bad))
+    c.validate_lines(lines, which + "_decfile", which=which)
+
+
 def c02(c):
     build_both()
     c.mc(toy_cfgs(["bytes", "field"], c.tier))
+    plan, n = gen_plan("DecodePlan.tla", "cfg/DecodePlan.cfg", "dec")
+    c.exhaustive_parts.append("for 6 base encodings: every alias s+jq < 2^256, q-s, s+-1, all 256 single-bit flips, bits 253..255; 10 absolute edge values; through every entry point for the first 300")
+    for b in ("ark", "min"):
+        replay_decode_plan(c, b, plan)
     for b in ("ark", "min"):
         c.trace(b, "decnear", scale(c.tier, 6, 120))
         c.trace(b, "decrand", scale(c.tier, 2000, 40000))
@@ -52,7 +94,7 @@ def c03(c):
 
 def c04(c):
     build_both()
-    c.mc(toy_cfgs(["pair", "point"], c.tier))
+    c.mc(toy_cfgs(["pair", "point"], c.tier) + session_cfgs(c.tier))
     for b in ("ark", "min"):
         c.trace(b, "forms", 1)
         c.trace(b, "prog", scale(c.tier, 80, 2000), 40)
@@ -80,7 +122,7 @@ def c07(c):
 
 def c08(c):
     build_both()
-    c.mc(toy_cfgs(["pair"], c.tier))
+    c.mc(toy_cfgs(["pair"], c.tier) + session_cfgs(c.tier))
     for b in ("ark", "min"):
         c.trace(b, "obs", scale(c.tier, 2, 30))
         c.trace(b, "coset", scale(c.tier, 40, 800))
